@@ -78,9 +78,12 @@ func Human(h *History, i int) map[string]interface{} {
 	r := h.Reqs[i]
 	return map[string]interface{}{"container": map[string]interface{}{"encoding": h.Cfg.Enc, "recover": h.Cfg.Recover, "customRecoverHandler": h.Cfg.HasRS,
 		"recoverScript": actStrs(h.Cfg.RScript), "containerFilters": fl(h.Cfg.CF), "serviceFilters": svcf, "routes": routes, "plainHandler": actStrs(h.Cfg.Plain), "provider": h.Cfg.Provider,
-		"late": h.Cfg.Late},
+		"late": h.Cfg.Late, "routeSelector": map[bool]string{false: "built-in", true: "a wrapper around the built-in router that answers " + RouterErrPath + " with errors.New(…) (not a restful.ServiceError)"}[h.Cfg.RouterErr], "serviceFilterRegistration": []string{"every ws.Filter before the first ws.Route", "ws.Filter after the last ws.Route, before Container.Add", "ws.Filter after Container.Add",
+			"first ws.Filter before the routes, the others one after each ws.Route, the rest after Container.Add"}[h.Cfg.Order]},
 		"table": h.Cfg.Routing.Sx().String(), "position_in_history": i, "history_length": len(h.Reqs),
-		"request": map[string]interface{}{"entry": r.Entry, "method": r.Req.Method, "path": r.Req.Path, "accept_encoding": r.AE, "prior_content_encoding": r.Prior}}
+		"request": map[string]interface{}{"entry": r.Entry, "method": r.Req.Method, "path": r.Req.Path, "accept_encoding": r.AE, "prior_content_encoding": r.Prior,
+			"accept": r.Req.Accept, "content_type": r.Req.CT, "if_bits": r.Req.Conds, "if_condition_panics_with": r.CondPanic,
+			"route_selector_refuses_with_plain_error": r.RouterErr}}
 }
 
 func actStrs(as []Act) []string {
@@ -95,6 +98,8 @@ func actStrs(as []Act) []string {
 			out = append(out, "Hijack()")
 		case "we":
 			out = append(out, fmt.Sprintf("WriteErrorString(%d,%s)", a.N, a.B))
+		case "pp":
+			out = append(out, fmt.Sprintf("req.PathParameters()[%s]=%s", a.B, a.V))
 		case "wh":
 			out = append(out, fmt.Sprintf("writeHeader(%d)", a.N))
 		case "ah":
@@ -271,7 +276,11 @@ func Check(run *report.Run, p PropSpec, o GenOpts, n, maxLen int, stream string)
 					run.KnownHits[known]++
 				} else if specFail < 3 {
 					specFail++
-					reportOne(run, p, h, i, "counterexample", fmt.Sprintf("the real observation falsifies Spec.%sHolds", strings.ToLower(p.ID)))
+					pred := strings.ToLower(p.ID) + "Holds"
+					if h.Reqs[i].RouterErr && p.ID == "C06" {
+						pred = "c06RouterErrorHolds (a routing failure that is not a ServiceError: the container filters must still run once, around nothing)"
+					}
+					reportOne(run, p, h, i, "counterexample", "the real observation falsifies Spec."+pred)
 				}
 				continue
 			}
@@ -282,7 +291,58 @@ func Check(run *report.Run, p PropSpec, o GenOpts, n, maxLen int, stream string)
 			}
 		}
 	}
+	if p.ID == "C10" {
+		if err := checkAftermath(run, hs); err != nil {
+			return err
+		}
+	}
 	run.Extra["skipped_tables_F11"] = SkippedBuild
+	return nil
+}
+
+// checkAftermath is the part of C10 about what a panic leaves behind ("afterwards the container serves
+// every following request exactly as it would have otherwise (no lock left held …)"), on the real code
+// alone:
+//   - after every history a writer operation (Add + Remove of a throw-away WebService) must return: a
+//     read lock that a panic during route selection left held shows only there;
+//   - on a container with recovery on, every request of the history is served twice in immediate
+//     succession, by the same call site: the two answers must be the same byte for byte — also the
+//     report the library's own recover handler writes, which is a function of the panic and of the
+//     call stack, both the same (the comparison with the model leaves that text out).
+func checkAftermath(run *report.Run, hs []*History) error {
+	blocked, differ := 0, 0
+	for _, h := range hs {
+		run.Count("aftermath:writer-probe")
+		if h.WriterBlocked && blocked < 3 {
+			blocked++
+			hm := Human(h, len(h.Reqs)-1)
+			hm["then"] = "Container.Add(throw-away WebService) followed by Container.Remove of it, in a goroutine of its own: did not return within 2 s"
+			run.AddViolation(report.Violation{Kind: "counterexample", What: "C10: after the requests of this history the container is not usable as before: a writer operation (Container.Add / Remove) blocks — a lock was left held",
+				Case: []string{h.Line}, Human: hm, Real: "Container.Add blocks", Model: "Container.Add returns"})
+		}
+		if !h.Cfg.Recover || h.WriterBlocked {
+			continue
+		}
+		cont, err := BuildFor(h.Cfg, h.Reqs)
+		if err != nil {
+			return err
+		}
+		led := Install(h.Cfg.Provider)
+		for i, rq := range h.Reqs {
+			var two [2]*Result
+			for k := range two {
+				two[k] = Serve(cont, h.Cfg, rq, led)
+			}
+			run.Count("aftermath:served-twice")
+			if a, b := two[0].Canon(false), two[1].Canon(false); a != b && differ < 3 {
+				differ++
+				hm := Human(h, i)
+				hm["then"] = "the same request once more, immediately afterwards"
+				run.AddViolation(report.Violation{Kind: "counterexample", What: "C10: the same request served twice in succession on one container (recovery on) is answered differently: what an earlier request left behind shows in the answer to a later one",
+					Case: []string{h.Line}, Human: hm, Real: fmt.Sprintf("%.3000s", b), Model: fmt.Sprintf("%.3000s", a)})
+			}
+		}
+	}
 	return nil
 }
 
@@ -327,7 +387,15 @@ func CheckPurity(run *report.Run, o GenOpts, n, maxLen int) error {
 	if err != nil {
 		return err
 	}
-	bad := 0
+	bad, leakOwn := 0, 0
+	var leakForeign []report.Violation
+	defer func() {
+		if leakOwn == 0 {
+			for _, v := range leakForeign {
+				run.AddViolation(v)
+			}
+		}
+	}()
 	report1 := func(h *History, i int, what, a, b string) {
 		if bad < 3 {
 			bad++
@@ -343,6 +411,26 @@ func CheckPurity(run *report.Run, o GenOpts, n, maxLen int) error {
 			run.Count("history-position:" + map[bool]string{true: "first", false: "later"}[i == 0])
 			if len(h.Real[i].Log) > 1 {
 				run.Distinct[h.Line+"|"+fmt.Sprint(i)] = true
+			}
+			if l := h.Real[i].Leaks; len(l) > 0 {
+				// the values are drawn from a large space: a leaked value that a script of THIS history
+				// writes was written by an earlier request of this history (a self-contained failing
+				// input); any other comes from a history served earlier in the run
+				own := false
+				for _, kv := range l {
+					own = own || writesPP(h.Cfg, kv)
+				}
+				hm := Human(h, i)
+				hm["leaked_path_parameters"] = l
+				hm["written_by_an_earlier_request_of_this_history"] = own
+				v := report.Violation{Kind: "counterexample", Case: []string{h.Line}, Human: hm, Real: fmt.Sprint(l), Model: "[]",
+					What: fmt.Sprintf("C19: a stage of request %d of the history sees path parameters %v that this request did not write: another request wrote them into its req.PathParameters()", i, l)}
+				if own && leakOwn < 3 {
+					leakOwn++
+					run.AddViolation(v)
+				} else if !own && len(leakForeign) < 3 {
+					leakForeign = append(leakForeign, v)
+				}
 			}
 			if a, b := h.Real[i].Canon(blank), h.Model[i].Canon(blank); a != b && run.DisagreementsChecked < 3 {
 				run.DisagreementsChecked++
@@ -452,8 +540,9 @@ func CheckPurity(run *report.Run, o GenOpts, n, maxLen int) error {
 func gatedCount(h *History, k int) int {
 	n := 0
 	for i := 0; i < k; i++ {
-		switch h.Reqs[i%len(h.Reqs)].Entry {
-		case "muxHandle", "serveHandle":
+		switch rq := h.Reqs[i%len(h.Reqs)]; {
+		case rq.Entry == "muxHandle" || rq.Entry == "serveHandle":
+		case rq.CondPanic != "": // the panic is raised during route selection: no filter is reached
 		default:
 			n++
 		}
@@ -506,4 +595,38 @@ func CheckConcurrent(run *report.Run, p PropSpec, o GenOpts, n, maxLen int) erro
 		}
 	}
 	return nil
+}
+
+// writesPP: some script of the configuration writes the path parameter kv.
+func writesPP(cfg *Cfg, kv [2]string) bool {
+	in := func(as []Act) bool {
+		for _, a := range as {
+			if a.K == "pp" && a.B == kv[0] && a.V == kv[1] {
+				return true
+			}
+		}
+		return false
+	}
+	inF := func(fs []Filter) bool {
+		for _, f := range fs {
+			if in(f.Pre) || in(f.Post) {
+				return true
+			}
+		}
+		return false
+	}
+	if inF(cfg.CF) {
+		return true
+	}
+	for _, fs := range cfg.SvcF {
+		if inF(fs) {
+			return true
+		}
+	}
+	for _, rx := range cfg.RouteX {
+		if in(rx.Script) || inF(rx.Filters) {
+			return true
+		}
+	}
+	return false
 }
